@@ -47,7 +47,13 @@ func genEnumExpr(r *gen.Rand, depth int, kinds []int, nMembers int) enumExpr {
 			if nMembers > 0 {
 				i := r.Intn(nMembers)
 				k := kinds[i]
-				return enumExpr{wire: fmt.Sprintf("r%d", i), ts: fmt.Sprintf("M%d", i), bound: 1 << 40, kind: k}
+				// the bound of a reference is the bound of the member it names (members reach 2^52; a fixed smaller
+				// bound let `7 * M2` leave the safe-integer range unnoticed: the model gives up there, the real folder does not)
+				bd := float64(uint64(1) << 40)
+				if i < len(tsenumBounds) && tsenumBounds[i] > bd {
+					bd = tsenumBounds[i]
+				}
+				return enumExpr{wire: fmt.Sprintf("r%d", i), ts: fmt.Sprintf("M%d", i), bound: bd, kind: k}
 			}
 			return enumExpr{wire: "n1", ts: "1", bound: 1, kind: 0}
 		default:
@@ -120,6 +126,9 @@ func hexOrDash(s string) string {
 	return hex.EncodeToString([]byte(s))
 }
 
+// bounds of the members generated so far in the current enum (see the reference case of genEnumExpr)
+var tsenumBounds []float64
+
 var reEnumNum = regexp.MustCompile(`^(-?\d+(?:e\d+)?)( /\* \w+ \*/)?$`)
 var reEnumStr = regexp.MustCompile(`^"([a-z]*)"( /\* \w+ \*/)?$`)
 
@@ -132,9 +141,15 @@ func init() {
 			var src strings.Builder
 			src.WriteString("declare function g(): number;\nenum E {\n")
 			ok := true
+			tsenumBounds = tsenumBounds[:0]
 			for i := 0; i < n; i++ {
 				name := fmt.Sprintf("M%d", i)
 				if r.Chance(1, 3) {
+					prev := float64(0)
+					if i > 0 {
+						prev = tsenumBounds[i-1]
+					}
+					tsenumBounds = append(tsenumBounds, prev+1)
 					wires = append(wires, name)
 					fmt.Fprintf(&src, "  %s,\n", name)
 					k := 0
@@ -155,6 +170,7 @@ func init() {
 				wires = append(wires, name+"="+ex.wire)
 				fmt.Fprintf(&src, "  %s = %s,\n", name, ex.ts)
 				kinds = append(kinds, ex.kind)
+				tsenumBounds = append(tsenumBounds, float64(ex.bound))
 				e.stat([]string{"member:number", "member:string", "member:unknown"}[ex.kind])
 			}
 			if !ok {
